@@ -43,12 +43,7 @@ func isDataDirective(name string) bool {
 	return strings.HasPrefix(name, ".") || name == "map_script" || name == "map_script_2"
 }
 
-func squash(s string) string {
-	if strings.IndexAny(s, " \t") < 0 {
-		return s
-	}
-	return strings.Join(strings.Fields(s), "")
-}
+func squash(s string) string { return env.Canon(s) }
 
 // Load parses emitted assembly text.
 func Load(text string) *Image {
